@@ -17,9 +17,12 @@ namespace H
     struct { const char *key; unsigned len; } lens[12]; unsigned n_lens;
     struct { const char *key; const char *opt[6]; unsigned n; } strs[6]; unsigned n_strs;
     struct { const char *key; double value; } fixed[8]; unsigned n_fixed;      // keys answered with a concrete value
+    const char *positive[4]; unsigned n_positive;                              // double lists whose entries the parser requires to be > 0 (delivered under that assumption)
     unsigned surface_points;        // get(name, coordinates): number of additional points (0 => constant surface)
     void set_len(const char *k, unsigned n) { lens[n_lens].key = k; lens[n_lens].len = n; ++n_lens; }
     void set_fixed(const char *k, double v) { fixed[n_fixed].key = k; fixed[n_fixed].value = v; ++n_fixed; }
+    void set_positive(const char *k) { positive[n_positive++] = k; }
+    bool is_positive(const std::string &k) const { for (unsigned i = 0; i < n_positive; ++i) if (k == positive[i]) return true; return false; }
     void set_options(const char *k, const char *a, const char *b = nullptr, const char *c = nullptr, const char *d = nullptr)
     { auto &s = strs[n_strs++]; s.key = k; s.n = 0; s.opt[s.n++] = a; if (b) s.opt[s.n++] = b; if (c) s.opt[s.n++] = c; if (d) s.opt[s.n++] = d; }
     unsigned len_of(const std::string &k) const
@@ -68,7 +71,8 @@ extern "C" std::string __wrap__ZNK12WorldBuilder10Parameters18get_full_json_path
 extern "C" std::vector<double> __wrap__ZN12WorldBuilder10Parameters10get_vectorIdEESt6vectorIT_SaIS3_EERKNSt7__cxx1112basic_stringIcSt11char_traitsIcESaIcEEE(Parameters *, const std::string *name)
 {
   const unsigned n = H::prm.len_of(*name); std::vector<double> v(n);
-  for (unsigned i = 0; i < n; ++i) v[i] = sym_f64(name->c_str());
+  const bool pos = H::prm.is_positive(*name);
+  for (unsigned i = 0; i < n; ++i) { v[i] = sym_f64(name->c_str()); if (pos) sym_assume(v[i] > 0); }
   return v;
 }
 extern "C" std::vector<unsigned> __wrap__ZN12WorldBuilder10Parameters10get_vectorIjEESt6vectorIT_SaIS3_EERKNSt7__cxx1112basic_stringIcSt11char_traitsIcESaIcEEE(Parameters *, const std::string *name)
